@@ -14,7 +14,7 @@
 //!   root <level> <a,b|-> [nonadd]            (the flag is written to the YAML; the code never reads it)
 //!   logger <name|~> <level> <add|nonadd> <a,b|->
 //!   emit <thread> <seq> <log|tracing> <target|~> <level>  => <a,b|->
-//!   shutdown <shutdown|drop>                              => ok
+//!   shutdown <shutdown|drop|scope|shutdownthread|dropthread|panicdrop|paniccatch> => ok
 //!   stream <appender>                                     => <t.s,...|-> <disconnected|timeout>
 use std::collections::{BTreeMap, BTreeSet};
 use std::io::Write as _;
@@ -108,7 +108,7 @@ fn parse_case(c: &CaseIn) -> Result<Case, String> {
         if !TARGETS.contains(&e.target.as_str()) { return Err(format!("target {:?} has no static callsite", e.target)); }
         k.emits.push(e);
       }
-      ["shutdown", kind] => { if k.shutdown_kind.is_none() { k.shutdown_kind = Some(kind.to_string()); } else { continue; } }
+      ["shutdown", kind] => { if !GUARD_ENDS.contains(kind) { return Err(format!("unknown shutdown kind {kind}")); } if k.shutdown_kind.is_none() { k.shutdown_kind = Some(kind.to_string()); } else { continue; } }
       ["stream", ..] => continue,
       _ => return Err(format!("bad line {op}")),
     }
@@ -162,7 +162,54 @@ fn emit_one(e: &Emit) {
   }
 }
 
+
+/// The ways an application ends the life of the guard (`InitResult`). Every one of them must set
+/// the shutdown flag, close the appender channels and join/flush the writers.
+///   shutdown        explicit `shutdown(timeout)` on the thread that called `init_from_file`
+///   drop            guard dropped normally on the init thread
+///   scope           guard goes out of scope at the end of a block (stored in an `Option` inside a struct)
+///   shutdownthread  guard moved to another thread which calls `shutdown`
+///   dropthread      guard moved to another thread which drops it
+///   panicdrop       a worker thread owns the guard and panics: the guard is dropped during unwinding
+///   paniccatch      the init thread panics inside `catch_unwind` while owning the guard
+const GUARD_ENDS: [&str; 7] = ["shutdown", "drop", "scope", "shutdownthread", "dropthread", "panicdrop", "paniccatch"];
+const PANIC_MARK: &str = "c19-expected-panic";
+
+fn quiet_expected_panics() {
+  let default_hook = std::panic::take_hook();
+  std::panic::set_hook(Box::new(move |info| {
+    let expected = info.payload().downcast_ref::<&str>().map_or(false, |m| *m == PANIC_MARK);
+    if !expected { default_hook(info); }
+  }));
+}
+
+fn end_guard(init: fibre_logging::InitResult, kind: &str) {
+  struct App { guard: Option<fibre_logging::InitResult> }
+  match kind {
+    "drop" => drop(init),
+    "scope" => { let app = App { guard: Some(init) }; let _keep = &app.guard; }
+    "shutdownthread" => { let _ = std::thread::spawn(move || init.shutdown(Duration::from_secs(5))).join(); }
+    "dropthread" => { let _ = std::thread::spawn(move || drop(init)).join(); }
+    "panicdrop" => {
+      let r = std::thread::Builder::new().name("c19-worker".into()).spawn(move || {
+        let _guard = init;
+        std::panic::panic_any(PANIC_MARK);
+      }).expect("spawn worker").join();
+      assert!(r.is_err(), "worker must have panicked");
+    }
+    "paniccatch" => {
+      let r = std::panic::catch_unwind(std::panic::AssertUnwindSafe(move || {
+        let _guard = init;
+        std::panic::panic_any(PANIC_MARK);
+      }));
+      assert!(r.is_err());
+    }
+    _ => init.shutdown(Duration::from_secs(5)),
+  }
+}
+
 fn child(file: &str) -> i32 {
+  quiet_expected_panics();
   let cases = read_cases(file);
   let Some(c) = cases.first() else { eprintln!("no case in {file}"); return 2 };
   if kv(&c.header, "kind") == Some("race") { return child_race(c, file); }
@@ -229,12 +276,15 @@ fn child(file: &str) -> i32 {
     });
   }
   pre_done.wait();
-  match k.shutdown_kind.as_deref() {
-    Some("drop") => drop(init),
-    _ => init.shutdown(Duration::from_secs(5)),
-  }
+  end_guard(init, k.shutdown_kind.as_deref().unwrap_or("shutdown"));
   go_post.wait();
   for h in emitters { let _ = h.join(); }
+  // the guard is gone: every stream must disconnect once drained; give the drainers 3 s, not 20
+  {
+    let t0 = Instant::now();
+    while drainers.iter().any(|d| !d.is_finished()) && t0.elapsed() < Duration::from_secs(3) { std::thread::sleep(Duration::from_millis(2)); }
+    give_up.store(true, Ordering::SeqCst);
+  }
 
   // Drop appenders: drained only now, so what they kept is min(capacity, routed)
   for (i, rx) in late {
@@ -269,7 +319,7 @@ fn child(file: &str) -> i32 {
 
 
 // ------------------------------------------------------------------ shutdown race (writer thread + stream)
-/// `#case <id> kind=race threads=<k> n=<per thread> after=<total completed emits before shutdown> cap=<c> sd=<shutdown|drop>`
+/// `#case <id> kind=race threads=<k> n=<per thread> after=<total completed emits before shutdown> cap=<c> sd=<guard end, see GUARD_ENDS>`
 /// Fixed configuration: custom stream `S` and file appender `F`, both Block with capacity `cap`,
 /// root trace -> [S, F]. k threads emit n events each without pause; once `after` emits have
 /// RETURNED the main thread records per thread how many had returned (`snap`), then shuts down
@@ -293,6 +343,7 @@ fn ranges(v: &[usize]) -> String {
 
 fn child_race(c: &CaseIn, file: &str) -> i32 {
   let rc = race_cfg(c);
+  if !GUARD_ENDS.contains(&rc.sd.as_str()) { eprintln!("unknown sd={}", rc.sd); return 2; }
   let base = file.trim_end_matches(".case").to_string();
   let (ypath, lpath) = (format!("{base}.yaml"), format!("{base}.log"));
   let _ = std::fs::remove_file(&lpath);
@@ -310,13 +361,15 @@ fn child_race(c: &CaseIn, file: &str) -> i32 {
     std::process::exit(3);
   });
   let rx = init.custom_streams.remove("S").expect("stream S");
+  let give_up = Arc::new(AtomicBool::new(false));
+  let give_up2 = give_up.clone();
   let drainer = std::thread::spawn(move || {
     let mut v = vec![];
     let status = loop {
       match rx.recv_timeout(Duration::from_millis(50)) {
         Ok(ev) => v.push(got_of(&ev)),
         Err(fibre::error::RecvErrorTimeout::Disconnected) => break "disconnected",
-        Err(fibre::error::RecvErrorTimeout::Timeout) => { if Instant::now() > deadline { break "timeout" } }
+        Err(fibre::error::RecvErrorTimeout::Timeout) => { if give_up2.load(Ordering::SeqCst) || Instant::now() > deadline { break "timeout" } }
       }
     };
     (v, status)
@@ -336,8 +389,13 @@ fn child_race(c: &CaseIn, file: &str) -> i32 {
   let total = rc.threads * rc.n;
   while done.iter().map(|d| d.load(Ordering::SeqCst)).sum::<usize>() < rc.after.min(total) { std::hint::spin_loop(); }
   let snap: Vec<usize> = done.iter().map(|d| d.load(Ordering::SeqCst)).collect();
-  if rc.sd == "drop" { drop(init) } else { init.shutdown(Duration::from_secs(5)) }
+  end_guard(init, &rc.sd);
   for h in emitters { let _ = h.join(); }
+  {
+    let t0 = Instant::now();
+    while !drainer.is_finished() && t0.elapsed() < Duration::from_secs(3) { std::thread::sleep(Duration::from_millis(2)); }
+    give_up.store(true, Ordering::SeqCst);
+  }
   let (sv, sstatus) = drainer.join().unwrap_or((vec![], "timeout"));
   // file content, in file order
   let text = std::fs::read_to_string(&lpath).unwrap_or_default();
@@ -635,7 +693,7 @@ fn gen_case(rng: &mut Rng, id: String, tier: &str) -> CaseIn {
   let mut hits: Vec<&str> = TARGETS.iter().copied().filter(|t| names.iter().any(|n| name_matches(n, t))).collect();
   if hits.is_empty() { hits = related.clone(); }
   for i in 0..nev {
-    if i == cut { ops.push(format!("shutdown {}", if rng.chance(1, 2) { "shutdown" } else { "drop" })); }
+    if i == cut { ops.push(format!("shutdown {}", rng.pick(&GUARD_ENDS))); }
     let th = rng.below(threads as u64) as usize;
     let target = match rng.below(20) { 0..=10 => *rng.pick(&hits), 11..=15 => *rng.pick(&related), _ => *rng.pick(TARGETS) };
     let lvl = LEVELS[rng.range(1, 5) as usize];
@@ -643,7 +701,7 @@ fn gen_case(rng: &mut Rng, id: String, tier: &str) -> CaseIn {
     ops.push(format!("emit {th} {} {api} {} {lvl}", seqs[th], tok(target)));
     seqs[th] += 1;
   }
-  if cut == nev { ops.push(format!("shutdown {}", if rng.chance(1, 2) { "shutdown" } else { "drop" })); }
+  if cut == nev { ops.push(format!("shutdown {}", rng.pick(&GUARD_ENDS))); }
   let mut header = vec![format!("threads={threads}")];
   if root_implicit { header.push("rootimplicit=1".into()); }
   CaseIn { id, header, ops }
@@ -654,7 +712,7 @@ fn gen_race(rng: &mut Rng, id: String) -> CaseIn {
   let n = *rng.pick(&[50usize, 200, 400]);
   let after = rng.below((threads * n) as u64 + 1) as usize;
   let cap = *rng.pick(&[1usize, 2, 4, 16, 64, 1024, 1024]);
-  let sd = if rng.chance(1, 2) { "shutdown" } else { "drop" };
+  let sd = *rng.pick(&GUARD_ENDS);
   CaseIn { id, header: vec!["kind=race".into(), format!("threads={threads}"), format!("n={n}"), format!("after={after}"), format!("cap={cap}"), format!("sd={sd}")], ops: vec![] }
 }
 
